@@ -9,6 +9,7 @@ from pv.canon import B, T, outcome, unB
 ID = "C09"
 COQ_REQUIRE = "C09.Run"
 SHARD = 60
+CASE_TIMEOUT = 120  # generous: the sandbox is shared and can be heavily loaded
 RULE = ("/proc/net/dev files printed by the kernel printer of coq/C09/Spec.v from 0..12 interfaces (names from a pool with ':' "
         "digits and punctuation plus random printable names, both the modern '%6s: %7llu' and the old '%6s:%8lu' format), "
         "/proc/diskstats files of 0..12 lines mixing the 14/18/20/22-field, 15-field (2.4) and 7-field layouts, disks and "
